@@ -24,6 +24,8 @@ THEOREMS = {
                                  "fftnoise_magnitude_neg", "fftnoise_dc_magnitude", "fftnoise_nyquist_magnitude", "fftnoise_zero_bins",
                                  "hermitian_idft_real", "fftnoise_series_real", "bandMask_symm", "bandMask_iff", "fftfreqAbs_symm",
                                  "fftfreqAbs_eq", "sectionCorners_ratio", "sectionCorners_step"],
+    # the machine-translated coefficient design (Gen/Noise.lean) IS the hand model the bilinear theorems are about
+    "SpecKitV.Props.NoiseGen": ["gen_filter_coeffs_eq_model"],
 }
 CONTRACTS = [
     "np.fft.ifft / np.fft.fft are the inverse / forward DFT (unnormalised forward, 1/N inverse) up to rounding c*u*log2(N)*||F||_2",
